@@ -1,9 +1,9 @@
 (* C03 — generated struct codecs round-trip and match the IDL schema encoding. Statements only.
    The model (Codec/GenCodec.v) is tied to the generated Go code on every run by the correspondence on every
    generated struct type (model decode = ReadFrom, model encode(decode) = WriteTo, byte-exact). *)
-From Coq Require Import List NArith ZArith.
-From TarsV Require Import Base.Hex Codec.Wire Codec.Skip Codec.Prim Codec.GenCodec Codec.Corr Codec.GenProofs
-  Codec.RoundTrip Codec.RoundTripProofs Codec.RoundTripExamples Gen.Schemas.
+From Coq Require Import List NArith ZArith Sorted.
+From TarsV Require Import Base.Hex Codec.Wire Codec.Skip Codec.SkipProofs Codec.Prim Codec.PrimProofs Codec.GenCodec Codec.Corr Codec.GenProofs
+  Codec.RoundTrip Codec.RoundTripProofs Codec.NormProofs Codec.WireSpec Codec.WireSpecProofs Codec.RoundTripExamples Gen.Schemas.
 Import ListNotations.
 Open Scope N_scope.
 
@@ -19,6 +19,24 @@ Theorem C03_roundtrip : forall e k sid vs,
   (need_list vs + k + 3 <= 2 * length (encode e sid (VStruct vs)) + 64)%nat ->
   decode e sid (encode e sid (VStruct vs)) = DOk (norm_struct e sid (VStruct vs)) [].
 Proof. exact RoundTripProofs.roundtrip_struct. Qed.
+
+(* FIRST CLAUSE in the property's own terms: for every wf_schema environment whose declared defaults are values of
+   their member's type, every struct type with a finite type graph and every well-typed value, decoding the
+   encoding succeeds, consumes everything and yields a value EQUAL to the original (veq: identical except that
+   float members compare with Go's ==, i.e. -0 = +0; the decoded value is norm v) *)
+Theorem C03_roundtrip_equal : forall e k n sid vs,
+  wf_schema k e -> defaults_typed e -> (S k <= 64)%nat ->
+  tfin n e (TStruct sid) = true -> (tneed n e (TStruct sid) + k <= 64)%nat ->
+  has_type e (TStruct sid) (VStruct vs) ->
+  exists v', decode e sid (encode e sid (VStruct vs)) = DOk v' [] /\ veq e (TStruct sid) v' (VStruct vs).
+Proof. exact NormProofs.roundtrip_equal. Qed.
+Theorem C03_norm_equal : forall e, defaults_typed e -> forall sid vs, has_type e (TStruct sid) (VStruct vs) ->
+  veq e (TStruct sid) (norm_struct e sid (VStruct vs)) (VStruct vs).
+Proof. exact NormProofs.norm_veq. Qed.
+Theorem C03_code_schemas_roundtrip_equal : forall sid vs, tfin 8 env0 (TStruct sid) = true ->
+  has_type env0 (TStruct sid) (VStruct vs) ->
+  exists v', decode env0 sid (encode env0 sid (VStruct vs)) = DOk v' [] /\ veq env0 (TStruct sid) v' (VStruct vs).
+Proof. exact RoundTripExamples.env0_roundtrip_equal. Qed.
 
 (* the same with the fuel condition discharged from the schema alone, for every struct type whose type graph
    is finite (tfin) and whose static depth bound (tneed) fits the model's constant *)
@@ -54,6 +72,32 @@ Theorem C03_code_schemas_finite :
   filter (fun sid => negb (tfin 8 env0 (TStruct sid))) (seq 0 (length env0)) = [sid_verifidl_Rec].
 Proof. exact RoundTripExamples.env0_nonrecursive. Qed.
 
+(* SECOND CLAUSE. The bytes WriteTo produces are a well-formed Tars encoding of the shape the schema prescribes:
+   for every wf_schema environment, struct type and well-typed value (encoding shorter than 2^30 bytes), they
+   are the serialisation (Skip.v: ser_fields, the independent description of the wire format) of a field list fs
+   built from the IDL types and the value alone (WireSpec.v: wire_fields/wire_of) that is well formed (fields_ok:
+   byte ranges, tags < 256, lengths within the format's fields, recursively), conforms to the schema (every field
+   under the tag of a member, in schema order, with a wire type the member's IDL type admits; a member is
+   missing only if optional) and has strictly ascending tags (so every member at most once). Nested struct
+   values are WStruct (wire_fields ...) of their own schema, so the same holds at every level. *)
+Theorem C03_wire_conformance : forall e k sid vs,
+  wf_schema k e -> has_type e (TStruct sid) (VStruct vs) -> N.of_nat (length (encode e sid (VStruct vs))) < 1073741824 ->
+  let fs := wire_fields e vs (fields_of e sid) in
+  encode e sid (VStruct vs) = ser_fields fs /\ fields_ok fs /\ conforms (fields_of e sid) fs /\
+  StronglySorted N.lt (map fst fs).
+Proof. exact WireSpecProofs.encode_conforms. Qed.
+(* every member and element, at any depth: the bytes are the serialised wire tree of the value, or nothing when the
+   member is optional and left out *)
+Theorem C03_wire_member : forall e n, (forall tag req t d v, has_type e t v -> (need v <= n)%nat ->
+  enc_var e tag req t d v = if left_out t req d v then [] else ser_field (tag, wire_of e t v)).
+Proof. exact (fun e n => proj1 (WireSpecProofs.wire_all e n)). Qed.
+(* integers in their narrowest width: the wire tree of an integer serialises to the declarative spec_int of C02 *)
+Theorem C03_int_narrowest : forall z tag, fits 64 z = true -> ser_field (tag, wint z) = spec_int z tag.
+Proof. exact WireSpecProofs.wint_narrowest. Qed.
+(* the wire type of every member is one the reader of its IDL type admits *)
+Theorem C03_wire_admissible : forall e t v, has_type e t v -> adm t (ty_of (wire_of e t v)) = true.
+Proof. exact WireSpecProofs.adm_wire. Qed.
+
 (* member level: every scalar member type round-trips under any tag, before any suffix, exact cursor *)
 Theorem C03_scalar_member_roundtrip : forall f e tag req t prior v rest, tag < 256 -> scalar_typed t v ->
   dec_var (S (S f)) e tag req t prior (w_scalar t v tag ++ rest) = DOk v rest.
@@ -66,12 +110,19 @@ Theorem C03_has_type_b_sound : forall e fuel t v, has_type_b fuel e t v = true -
 Proof. exact RoundTripProofs.has_type_b_sound. Qed.
 
 Print Assumptions C03_roundtrip.
+Print Assumptions C03_roundtrip_equal.
+Print Assumptions C03_norm_equal.
+Print Assumptions C03_code_schemas_roundtrip_equal.
 Print Assumptions C03_roundtrip_static.
 Print Assumptions C03_roundtrip_into.
 Print Assumptions C03_fuel_linear.
 Print Assumptions C03_code_schemas_wf.
 Print Assumptions C03_code_schemas_roundtrip.
 Print Assumptions C03_code_schemas_finite.
+Print Assumptions C03_wire_conformance.
+Print Assumptions C03_wire_member.
+Print Assumptions C03_int_narrowest.
+Print Assumptions C03_wire_admissible.
 Print Assumptions C03_scalar_member_roundtrip.
 Print Assumptions C03_wf_schema_b_sound.
 Print Assumptions C03_has_type_b_sound.
